@@ -62,8 +62,8 @@ func (fr *frame) frameGoal(arrName string, ref Term) string {
 
 // allowed: the write-permission predicate of the function under verification for heap array arrName at ref r.
 func (fc *FnCtx) allowed(old *State, arrName, r string) string {
-	al := fc.heapGet(old, "Alloc", arr(SInt, SBool))
-	alts := []string{not(sel(al.S, r))}
+	al := fc.heapGet(old, "Alloc", SAlloc)
+	alts := []string{not(allocd(al.S, r))}
 	for _, m := range fc.modset[arrName] {
 		alts = append(alts, eq(r, m.S))
 	}
